@@ -142,4 +142,21 @@ PROPS = {
             "the ghost value carried by a queued update in the lane model is never observed; C02_queued_value_is_current proves it equals the map value read at write time",
         ],
     ),
+    "C14": dict(
+        coq_targets=["Props/C14.vo"],
+        harness=[dict(pkg="h_agent", bin="c14", cases={"quick": 300, "thorough": 4000},
+                      checkers=["corr", "oracle"], timeout=2400)],
+        allowed_axioms=[],
+        trusted_base=[
+            "commands as records (target, body): a lane buffer is a list of records and its offset a record index (the real byte offset always lies on a record boundary); frames are decoded in the harness with the real RawRequestMessageDecoder / ValueLaneResponseDecoder",
+            "byte channel of capacity 1 per target: a write never completes before the target reads (frames are longer than one byte), write_all delivers the buffer's bytes in order; tokio current-thread scheduling is used only to reach quiescence between harness steps",
+            "HashMap / VecDeque as association lists / lists",
+            "hooks: swimos_runtime feature `verif` re-exports external_links_task, LinksTaskState, LinksTaskConfig, NoReport, ExternalLinkRequest, CommandChannelRequest and the backpressure strategies",
+        ],
+        assumptions=[
+            "theorems cover SupplyLane, SupplyBackpressure and CommandOutput/CmdChannelWriter under every order of appends, channel openings and write completions; the command path of the real external_links_task is tied to the model by correspondence + oracle (targets stalled, opened late, drained) (partial)",
+            "not modelled: the supply uplink's re-queueing inside the write task (Uplinks / has_data loop), dispatch of command envelopes to command-lane handlers (read task needs_flush + agent model loop), channel failures / retries / timeouts of the ad hoc outputs",
+            "body lengths below 2^64 for the supply buffer",
+        ],
+    ),
 }
